@@ -60,6 +60,20 @@ def _check_ext(case) -> list[Fail]:
         j2 = e2.to_json()
     except Exception as ex:  # noqa: BLE001
         return f + [exc_fail("load", ex)]
+    # two loads of one document are independent objects: changing the first does not show in the second
+    try:
+        import hugr.ext as hext
+        import hugr.tys as htys
+
+        e2.add_type_def(hext.TypeDef("verif.added", "", [], hext.ExplicitBound(htys.TypeBound.Copyable)))
+        d3 = json.loads(Extension.from_json(j1).to_json())
+        del e2.types["verif.added"]
+        if d3 != json.loads(j2):
+            from vlib.props.c05 import first_diff
+
+            f.append(Fail("load", "second-load-sees-changes-to-the-first:" + (first_diff(d3, json.loads(j2)) or "?"), ""))
+    except Exception as ex:  # noqa: BLE001
+        f.append(exc_fail("load-twice", ex))
     d2 = json.loads(j2)
     if d2 != d1:
         from vlib.props.c05 import first_diff
